@@ -80,10 +80,10 @@ def _deviation(f, obs, before):
         return "D1-jmi-id-never-set"
     if a == "Recv" and t == "propose" and rsent and "TieBreak" in ps:      # the reference handles a collision
         rt, ot = [x["t"] for x in rsent], [x["t"] for x in osent]
-        if e["id"] in ("nlo", "nhi") and rt[0] != (ot[0] if ot else ""):
-            return "D5-ids-compared-as-uuids"
         if rt[0] == "finish" and (not ot or ot[0] != "finish"):
             return "D7-proceed-does-not-mark-proceeded"
+        if e["id"] in ("nlo", "nhi") and rt[0] != (ot[0] if ot else ""):
+            return "D5-ids-compared-as-uuids"
     if any(x["s"] == "proceeded" and "@" in x["b"] for x in osig):
         return "D6-proceeded-carries-the-bare-jid"
     if "Gone" in ps or ps == {"Members"}:
